@@ -313,11 +313,14 @@ func (x *executor) applyContract(m *machine, fr *frame, in ssa.Instruction, res 
 	var targets []modTarget
 	for _, cl := range fc.modifies {
 		ev.where = cl.line
-		targets = append(targets, x.modTargetOf(ev, cl.e))
+		targets = append(targets, x.modTargetsOf(ev, cl.e)...)
 	}
 	for _, mt := range targets {
 		if mt.iface != "" {
 			x.refreshToken(st, mt.iface)
+			continue
+		}
+		if mt.cell != nil {
 			continue
 		}
 		// the caller must itself be allowed to modify it
